@@ -1,4 +1,4 @@
 SPECIFICATION Spec
-CONSTANTS G = 4 P = 4 MaxR = 3 MaxO = 2 KeepUnmapped = FALSE
+CONSTANTS G = 4 P = 4 MaxR = 3 MaxO = 2 KeepUnmapped = FALSE Ranges = {FALSE}
 INVARIANT ChainIsExact
 CHECK_DEADLOCK FALSE
